@@ -240,7 +240,7 @@ func Prop() *core.Prop {
 		},
 		Cases: func(tier string) int {
 			if tier == "thorough" {
-				return len(forcedList) + 1500
+				return len(forcedList) + 25000
 			}
 			return len(forcedList) + 60
 		},
